@@ -83,12 +83,11 @@ def gecko_reemit_ok(w):
     stepped = lp.get("k") == "For"
     if stepped:
         return gecko_reemit_stepped(w, lp, env, wname)
-    incs = [x for x in tir.walk(lp) if x.get("k") == "AssignOp" and x.get("op") in ("Add", "AddAssign") and strip(x["l"]).get("k") == "Path" and tir.lit_int(x["r"]) == 512]
-    if len(incs) != 1:
+    sl_ = emission.stepping_loop(lp, root, 512)
+    if sl_ is None:
         return False
-    pos_id = strip(incs[0]["l"]).get("id")
-    if [x for x in tir.walk(lp) if x.get("k") in ("Assign", "AssignOp") and strip(x["l"]).get("id") == pos_id and x is not incs[0]]:
-        return False
+    pos_id, inc0 = sl_
+    incs = [inc0]
 
     def is_pos(e):
         return strip(e).get("k") == "Path" and strip(e).get("id") == pos_id
@@ -129,7 +128,8 @@ def gecko_reemit_ok(w):
     f = {x["name"]: x["e"] for x in rg.get("fields", [])} if rg.get("k") == "Struct" else {}
     try:
         pname = strip(incs[0]["l"]).get("name")
-        ok = ok and is_pos(f.get("start") or {}) and linear.lin(f.get("end") or {}) == {pname: 1, "": 512}
+        fe = linear.lin(env.resolve(f.get("end") or {}))
+        ok = ok and is_pos(f.get("start") or {}) and {k: v for k, v in fe.items() if v} == {pname: 1, "": 512}
     except linear.NonLinear:
         return False
     sz = strip(ws[2]["args"][0])
@@ -267,6 +267,13 @@ def gecko_rule(F, rep):
             f = {y["name"]: y["e"] for y in rg.get("fields", [])} if rg.get("k") == "Struct" else {}
             if a.get("k") == "Index" and strip(a["base"]).get("k") == "Path" and tir.lit_int(f.get("start") or {}) == 0 and tir.lit_int(f.get("end") or {}) == 512:
                 keep = True
+            if a.get("k") == "Path" and a.get("res") == "local":
+                # `let (block, rest) = buf.split_at(512);` — block is buf[0..512]
+                for s_ in tir.walk(b["tir"]["value"]):
+                    if s_.get("k") == "Let" and s_["pat"].get("k") == "Tuple" and len(s_["pat"]["pats"]) == 2 and s_["pat"]["pats"][0].get("id") == a.get("id"):
+                        i0 = strip(s_.get("init") or {})
+                        if i0.get("k") == "MethodCall" and i0["method"] == "split_at" and tir.lit_int(i0["args"][0]) == 512:
+                            keep = True
     rep.ob("gecko.keep-block", keep, "io::slippi::de::handle_splitter_event", "block", "the reader must keep all 512 bytes of every splitter block")
     w = F.body("io::slippi::ser::gecko_codes")
     ok = gecko_reemit_ok(w)
@@ -355,10 +362,15 @@ def run(F, rep, tier):
         out = []
         for it in items:
             if it[0] == "gate":
-                f = it[1]
-                if f[0] == "gte" and (f[1], f[2]) == target:
-                    f = ("gte", f[1], f[2] + 1, f[3])
-                out.append(("gate", f, bump(it[2]), bump(it[3])))
+                def bf(f):
+                    if f[0] == "gte" and (f[1], f[2]) == target:
+                        return ("gte", f[1], f[2] + 1, f[3])
+                    if f[0] == "not":
+                        return ("not", bf(f[1]))
+                    if f[0] in ("and", "or"):
+                        return (f[0], bf(f[1]), bf(f[2]))
+                    return f
+                out.append(("gate", bf(it[1]), bump(it[2]), bump(it[3])))
             else:
                 out.append(it)
         return out
